@@ -139,10 +139,10 @@ theorem qBody_sim (c : Comp σ π) {L1 L2 : Limits} {N : Int} (h : SoftHard L1 L
       · exact ⟨NM.refl s, fun _ => rfl⟩
       · split
         · exact ⟨NM.refl s, fun _ => rfl⟩
-        · have hq := qLoop_sim c h ch1 ch2 hc beta (c.eval s.board) ply (c.qMoves s.ps s.board s.hstack)
-            { alpha := max alpha (c.eval s.board), maxim := c.eval s.board } s.pushFrame
-          generalize qLoop c L1 ch1 beta (c.eval s.board) ply (c.qMoves s.ps s.board s.hstack)
-            { alpha := max alpha (c.eval s.board), maxim := c.eval s.board } s.pushFrame = r at hq ⊢
+        · have hq := qLoop_sim c h ch1 ch2 hc beta (evaluate c s.board) ply (c.qMoves s.ps s.board s.hstack)
+            { alpha := max alpha (evaluate c s.board), maxim := evaluate c s.board } s.pushFrame
+          generalize qLoop c L1 ch1 beta (evaluate c s.board) ply (c.qMoves s.ps s.board s.hstack)
+            { alpha := max alpha (evaluate c s.board), maxim := evaluate c s.board } s.pushFrame = r at hq ⊢
           have hn : NM s r.2 := (NM.of_eq rfl rfl).trans hq.1
           obtain ⟨f, s'⟩ := r
           cases f with
